@@ -1,2 +1,7 @@
 #!/bin/sh
-exit 0
+# Build the Lean side from scratch (offline): generated tables, model, specs, proofs, driver.
+set -e
+cd "$(dirname "$0")"
+/venv/bin/python tools/extract.py /repo lean/ValidaGen
+cd lean
+lake build
